@@ -73,6 +73,12 @@ def build_source(src, holder):
     if kind == "supervised_csv":
         lines = list(kw["lines"])
         holder["lines"] = lines
+        if kw.get("encode"):
+            # a caller-composed source: the CSV columns go through pipes.Encode with NumericEncoders (one of them for a column that is not there)
+            from coba.pipes import Encode, Pipes
+            from coba.encodings import NumericEncoder
+            src = Pipes.join(cb.CsvSource(ListSource(lines), has_header=True), Encode({0: NumericEncoder(), 1: NumericEncoder(), 7: NumericEncoder()}))
+            return cb.Environments.from_supervised(src, label_col=2, label_type=kw.get("label_type"), take=kw.get("take"))
         return cb.Environments.from_supervised(cb.CsvSource(ListSource(lines), has_header=True), label_col=kw["label_col"],
                                                label_type=kw.get("label_type"), take=kw.get("take"))
     if kind == "supervised_arff":
@@ -173,6 +179,8 @@ def _instrument_stateful():
     import coba.utilities as U
     import coba.pipes.readers as RD
     import coba.pipes.rows as RW
+    import coba.encodings as EN
+    fns += [PF.Encode.filter, EN.NumericEncoder.encode, EN.NumericEncoder._float_generator]
     asyncexc.instrument([f for f in fns + [U.try_else, U.peek_first, RD.ArffReader.filter, RW.EncodeRows.filter, RW.DropRows.filter] if hasattr(f, "__code__")])
 
 
@@ -269,7 +277,7 @@ def gen_src(rng):
         m = max(1, n)
         lines = ["f1,f2,lab"] + [f"{rng.randrange(9)},{round(rng.random(), 2)},{rng.choice(['x', 'y', 'z'])}" for _ in range(m)]
         return ["supervised_csv", {"lines": lines, "label_col": rng.choice(["lab", 2]), "label_type": "c",
-                                   "take": weighted(rng, [(None, 3), (max(1, m // 2), 1)])}]
+                                   "take": weighted(rng, [(None, 3), (max(1, m // 2), 1)]), "encode": rng.random() < 0.4}]
     if k == "supervised_arff":
         # a dense ARFF whose data lines use different quoting styles (the line reader adapts while it reads)
         m = max(2, min(n, 12))
